@@ -638,6 +638,17 @@ func (w *World) byKeySorted() []*Contract {
 	return out
 }
 
+// externFor looks an extern contract up, preferring the one declared in the package of the function under proof
+// (names such as "funcvalue:cb" are per package).
+func (w *World) externFor(fn *ssa.Function, key string) *Contract {
+	if fn != nil && fn.Pkg != nil && fn.Pkg.Pkg != nil {
+		if c := w.externs[fn.Pkg.Pkg.Path()+"|"+key]; c != nil {
+			return c
+		}
+	}
+	return w.externs[key]
+}
+
 func (w *World) bindContract(p *packages.Package, c *Contract, where string) error {
 	sp := w.prog.Package(p.Types)
 	var found *ssa.Function
@@ -668,6 +679,7 @@ func (w *World) bindContract(p *packages.Package, c *Contract, where string) err
 			}
 		}
 		w.externs[c.ExternFor] = c
+		w.externs[p.PkgPath+"|"+c.ExternFor] = c
 		c.Short = c.ExternFor
 		if c.Trusted == "" {
 			c.Trusted = "extern contract (assumed)"
